@@ -340,7 +340,7 @@ func checkC15(c *Ctx) {
 							other = k
 						}
 					}
-					ok = l.c == 0 && l.syms["callerSkip"] == 1 && len(l.syms) == 2 && l.syms[other] == 1 && (other == "skip" || viaType && len(f.Params) > 0 && (other == f.Params[0].Name() || other == "param "+f.Params[0].Name()))
+					ok = l.c == 0 && l.syms["callerSkip"] == 1 && len(l.syms) == 2 && l.syms[other] == 1 && (other == "skip" || viaType && len(f.Params) > 0 && (other == PN(f.Params[0]) || other == "param "+PN(f.Params[0])))
 				}
 			}
 		}
@@ -602,7 +602,7 @@ func c15Attach(c *Ctx) {
 		return
 	}
 	name := fn.String()
-	rn := fn.Params[0].Name()
+	rn := PN(fn.Params[0])
 	resolve := func(st *ConcState, v ssa.Value) ssa.Value {
 		for k := 0; k < 16 && v != nil; k++ {
 			if ct, ok := v.(*ssa.ChangeType); ok {
@@ -1071,7 +1071,7 @@ func c15ConfigAnnotations(c *Ctx, rule string) {
 	if !c.Anchor(rule, "zap.Config.buildOptions", fn != nil) {
 		return
 	}
-	rn := fn.Params[0].Name()
+	rn := PN(fn.Params[0])
 	warn, _ := c.ConstVal(CorePath, "WarnLevel")
 	errl, _ := c.ConstVal(CorePath, "ErrorLevel")
 	var bad []string
